@@ -128,6 +128,9 @@ def run(ctx):
     rep.rule("C05.R3", "mirror symmetry of subsystem-1 / subsystem-2 glue", 20)
     rep.rule("C05.R4", "subsystem protocol of the glue lambdas", 15)
     rep.rule("C05.R7", "two-body block typing: a block selecting body c's coordinates / velocities holds only body c's derivative quantities (K9)", 40)
+    rep.rule("C05.R13", "the joint glue is stateless: no value-remembering closure in cardillo/constraints skips a parameter of the function it wraps (time!)", 0)
+    from .c26 import handmade_memo
+    handmade_memo(ctx, "C05.R13", lambda rel: rel.startswith("cardillo/constraints/"))
     rep.rule("C05.R11", "the configuration in which a joint is defined is evaluated on the joint's LOCAL coordinates (subsystem.q0[local_qDOF] / self.q0), the kind its glue lambdas slice", 4)
     defining_configuration(ctx)
     rep.rule("C05.R10", "per block row: sign of the body-2 block relative to the body-1 block (orientation rows; cross products in canonical order; frozen table)", 8)
@@ -315,6 +318,11 @@ MUTANTS += [
 MUTANTS += [
     dict(id="c05-r11-orig", canary=True, what="FixedDistance defined from the subsystems' full q0 (original defect)", file="cardillo/constraints/fixed_distance.py",
          old="        q0 = self.q0\n", new="        q0 = np.hstack((self.subsystem1.q0, self.subsystem2.q0))\n", expect="C05.R11"),
+]
+MUTANTS += [
+    dict(id="c05-r13-seed", canary=True, what="[seeded by sub-agent] joint bases A_IJ1 / A_IJ2 served from a closure that re-evaluates only when q changes (stale for rotating frames)", file=JB,
+         edits=[(JB, "class PositionOrientationBase:\n", "def cache_last_evaluation(fun, local_qDOF):\n    q_last, value = None, None\n\n    def cached_fun(t, q):\n        nonlocal q_last, value\n        q_loc = q[local_qDOF]\n        if q_last is None or np.any(q_last != q_loc):\n            q_last, value = q_loc.copy(), fun(t, q)\n        return value\n\n    return cached_fun\n\n\nclass PositionOrientationBase:\n")],
+         expect="C05.R13"),
 ]
 NEUTRAL = [
     dict(id="c05-n-r9", canary=True, what="g_dot_q rewritten with cross3 and the correct argument order", file=JB,
